@@ -17,6 +17,8 @@ CLAIMED = {
   "Universal Coq theorem C09_cut_spec: for every instruction stream satisfying WfStream the line-by-line model of FlowInfo.from_bytecode + build_basicblocks succeeds and its blocks tile the stream, are entered only at their begin, contain jumps only as last instruction and carry exactly the ordered successors of their last instruction. Finite obligations re-checked on every run over the translated tables: every in-domain opcode of each interpreter present (3.12, 3.11) is classified as the interpreter treats it, non-fall-through jumps/returns carry no inline cache, the offset helpers are +2/-2. Model blocks = implementation blocks on >1000 standard-library functions under both interpreters, with WfStream decided (soundly) per function."),
  "C11": ("proof", "5 (C11)", "Coq proof by induction over statement trees on a dispatcher translated from handle_ast_node and the interpreter's ast classes",
   "Over the dispatcher translated on every run from handle_ast_node (plus the handlers' statement-visiting skeleton and the statement classes of the running interpreter's ast module): every statement class outside the supported subset reaches the not-implemented arm, handlers descend into every statement-list field (finite obligations by vm_compute), and - by induction over statement trees of any depth - if the front end accepts a module body then no statement anywhere below it is of a refused class and the only function definition is the first top-level node; non-function input is refused. Model outcome = implementation outcome on every unsupported class at every structural position and on random trees."),
+ "C12": ("proof", "5 (C12)", "translated inventory of set-iteration sites checked against a reviewed table in Coq; permutation-invariance lemmas; cross-hash-seed runs",
+  "PARTIAL by nature: the model is a function, hash randomisation lives in CPython. Proved: every place where the library iterates over a set (inventory re-scanned from the source on every run) is a reviewed site, and for the site classes sorted-result / singleton / len-member / delete-keys / commutative the result is invariant under every permutation of the enumeration order (universal lemmas over the models of the queries). Not proved: the fixpoint-class sites (dominator work-list, _imm_doms, to_dict queue, prune_unreachable) and CPython's string hashing itself - the runtime behaviour the model cannot exhibit; those rest on running graphs, generated programs (front end, restructuring, regenerated source) and bytecode functions in separate processes under 4 (thorough: 32) hash seeds and comparing order-sensitive dumps."),
  "C13": ("proof", "5 (C13)", "Coq proofs of line-by-line query models and of closure-based reference definitions; implementation compared with them exhaustively on small graphs",
   "Universal Coq theorems over arbitrary graphs: find_head is sound and complete; headers/entries and exiting/exits equal their set definitions and come out sorted (line-by-line models); reference reachability (>=1 edge), dominance in both directions and strongly connected components equal their path-based definitions. The implementation's answers (find_head, both subset queries for all subsets, is_reachable_dfs for all pairs, _doms, _post_doms, compute_scc) are compared with these on ALL graphs with <=3 nodes/out-degree 2 and on random graphs up to 30 nodes."),
  "C14": ("proof", "5 (C14)", "Coq proofs over line-by-line models of the edit primitives; order-exact correspondence; verified checker for control-block arcs",
